@@ -89,7 +89,7 @@ def build(rng, members: list[dict], *, data_order: str = "shuffle", align: int =
             # a pax extended header in front of the member (records such as mtime, comment, size, path)
             # a size record (value None) repeats the member's actual size
             rec = pax_records([(k_, str(len(m.get("data", b""))) if v_ is None else v_) for k_, v_ in m["pax"]])
-            paxh = [header(b"PaxHeaders/" + nb[:80], len(rec), b"x", visor=m.get("visor_pax", False)), rec.ljust(-(-len(rec) // 512) * 512, b"\0")]
+            paxh = [header(b"PaxHeaders/" + nb[:80], len(rec), m.get("pax_type", b"x"), visor=m.get("visor_pax", False)), rec.ljust(-(-len(rec) // 512) * 512, b"\0")]
             # extension headers stack in either order: long name then pax records, or pax records then long name
             pre = (paxh + pre) if m.get("pax_first") else (pre + paxh)
         for p in pre:
@@ -160,7 +160,8 @@ def build(rng, members: list[dict], *, data_order: str = "shuffle", align: int =
         if isinstance(h, tuple):
             _, i, nb, prefix = h
             d = members[i]["data"]
-            out += header(nb, len(d), members[i].get("typeflag", b"0"), offset_data=offs[i], prefix=prefix, text_pgs=members[i].get("text_pgs", 0),
+            # with a pax size record in front, the size field of the header itself may be left at zero (the record decides)
+            out += header(nb, 0 if members[i].get("hdr_size_zero") else len(d), members[i].get("typeflag", b"0"), offset_data=offs[i], prefix=prefix, text_pgs=members[i].get("text_pgs", 0),
                           fixup_pgs=members[i].get("fixup_pgs", 0), word2=members[i].get("word2", 0))
         else:
             out += h
